@@ -37,5 +37,31 @@ CHECKS = {
         note="Trusted: pandas contract that Index.get_indexer returns -1 for a missing label and does not raise; xarray reduce/expand_dims/assign_attrs semantics.",
         technique="static analysis: statement CFG must-pass-through + integer-comparison normal forms on the syntax tree",
     ),
+    "C16": dict(
+        category=OTHER,
+        text="Static rule conformance on do_mean and its two accessor sites: the accumulation descriptor (a pixel adds its value / 1 to the slot of its own zone "
+             "exactly under value != nodata and zone != zone-nodata), accumulator width read from Numba's typed IR for four entry signatures (64-bit whatever "
+             "out_dtype is), per-time-step reset, finalisation mean = sum/count under count > 0 else NaN with the count stored, zone-loop coverage, NaN->nodata "
+             "substitution, argument binding and dask shape agreement.",
+        note="Trusted: Numba type inference; dask map_blocks drop_axis/new_axis/chunks contract. Floating-point rearrangement invariance beyond accumulator width is declined.",
+        technique="static analysis: guard/def-use descriptors on the CFG + Numba typed-IR accumulator types",
+    ),
+    "C17": dict(
+        category=OTHER,
+        text="Typestate rule on rolling_sum's output cell (no CFG path of the same window adds to the cell after the sentinel was stored; the sentinel is stored only "
+             "for an incomplete window, a nodata cell or a window without valid cells; an all-nodata window reaches a sentinel store), window bounds, agreement of the "
+             "kernel's prefix with the accessor's trimming, mean_grp accumulation/finalisation descriptor (skip == nodata, count, n == 0 -> nodata else sum/n, scatter "
+             "index == gather index, group coverage), sentinel never an arithmetic operand, argument binding, nodata resolution order.",
+        note="Trusted: xarray apply_ufunc core-dimension contract. Exactness of float32 sums for large magnitudes is declined.",
+        technique="static analysis: typestate path queries on the statement CFG, guard-atom descriptors, integer normal forms",
+    ),
+    "C18": dict(
+        category=OTHER,
+        text="R-NARROW from Numba's typed IR (the run length, bounded only by the series length, must fit the output element type), descriptor of lroo's run logic "
+             "(positions of ones, gap == 1 extends and updates the maximum, other gaps reset to 1, result mr if mr > 1 else 0), descriptor of croo's xarray chain "
+             "(sort newest first, cumsum without NaN skipping, argmax + latest), site binding and declared == written dtype. Known finding D14 (uint8 output wraps).",
+        note="Trusted: Numba type inference; xarray sortby/where/cumsum/argmax semantics; np.where returns ascending positions. Equality with a brute-force run counter is declined.",
+        technique="static analysis: Numba typed-IR store types + guard/def-use descriptors on the CFG",
+    ),
 }
 NOT_APPLICABLE = {}
